@@ -480,8 +480,9 @@ func c01R2(c *Ctx) {
 	}
 	// (d) every increment is dominated by evidence that the message's number equals the
 	// expected one: a fully gated verification, or both comparisons, returned nil. Tabulated
-	// exceptions: the reject processor's ordinary-reject arm (FIX: reject and consume the number)
-	// and the Logon-refusal shutdown (flag-controlled).
+	// exception: the Logon-refusal shutdown (flag-controlled). The reject processor's
+	// reject-and-consume arm was an exception until D18 showed that it is reached with numbers
+	// that were never compared.
 	r := getRoles(p)
 	for _, fn := range p.FuncsIn(modPath) {
 		for _, cl := range r.storeCalls(fn, "IncrNextTargetMsgSeqNum") {
@@ -493,10 +494,7 @@ func c01R2(c *Ctx) {
 				}
 			})
 			d := p.ReachCond(cl.Block())
-			if hasAssert {
-				c.OK(name, p.InstrPos(cl), "reject processor: reject-and-consume arm (tabulated)")
-				continue
-			}
+			_ = hasAssert // the reject processor's reject-and-consume arm is no exception: rejects can be decided before, or without, the sequence comparison (D18)
 			if d.Implies(func(a *Atom) bool { return a.Rel == "" && a.Val && a.B.Kind == "param" }) {
 				c.OK(name, p.InstrPos(cl), "flag-controlled consume after a refused Logon (tabulated)")
 				continue
@@ -631,7 +629,7 @@ func c01R4(c *Ctx) {
 
 // isStateHandler: fn implements sessionState.FixMsgIn.
 func isStateHandler(p *Prog, fn *ssa.Function) bool {
-	if fn == nil || fn.Name() != "FixMsgIn" || fn.Signature.Recv() == nil {
+	if fn == nil || fnName(fn) != "FixMsgIn" || fn.Signature.Recv() == nil {
 		return false
 	}
 	it := p.Iface(modPath, "sessionState")
